@@ -321,7 +321,7 @@ func isErrorReturn(r *ssa.Return) bool {
 	if ei < 0 || ei >= len(r.Results) {
 		return false
 	}
-	return definitelyNonNilError(r.Results[ei], r.Block(), 0)
+	return definitelyNonNilError(retVal(r, ei), r.Block(), 0)
 }
 
 func definitelyNonNilError(v ssa.Value, at *ssa.BasicBlock, depth int) bool {
@@ -500,5 +500,41 @@ func storesInto(a *ssa.Alloc) []*ssa.Store {
 		}
 	}
 	walk(a)
+	return out
+}
+
+// retVal returns the value a return yields in result i, looking through the
+// result spill go/ssa introduces in functions with defer (store to a local,
+// rundefers, load, return).
+func retVal(ret *ssa.Return, i int) ssa.Value {
+	v := ret.Results[i]
+	u, ok := v.(*ssa.UnOp)
+	if !ok || u.Op != token.MUL {
+		return v
+	}
+	a, ok := u.X.(*ssa.Alloc)
+	if !ok {
+		return v
+	}
+	blk := ret.Block()
+	for j := instrIndex(u) - 1; j >= 0; j-- {
+		if st, ok := blk.Instrs[j].(*ssa.Store); ok && st.Addr == ssa.Value(a) {
+			return st.Val
+		}
+	}
+	return v
+}
+
+// returnsOf lists the return instructions of fn (the synthetic recover block excluded).
+func returnsOf(fn *ssa.Function) []*ssa.Return {
+	var out []*ssa.Return
+	for _, b := range fn.Blocks {
+		if b == fn.Recover {
+			continue
+		}
+		if r := blockReturn(b); r != nil {
+			out = append(out, r)
+		}
+	}
 	return out
 }
